@@ -222,6 +222,10 @@ func runC10(c *explore.Ctx) {
 			}
 			return b
 		}, 1025})
+		for _, e := range gen.Extremes() {
+			e := e
+			cases = append(cases, cs{"EXTREME " + e.Name, func() []model.Doc { return e.Batch }, 1025})
+		}
 		for _, cse := range cases {
 			my := idx
 			idx++
